@@ -345,6 +345,9 @@ async fn run_delta(
     let sig_data = tokio::fs::read(signature).await?;
     let sig: copia::Signature = bincode::deserialize(&sig_data)?;
 
+    // The block size comes from an untrusted file: report an error instead of
+    // tripping the constructor's assertion.
+    validate_block_size(sig.block_size)?;
     let sync = AsyncCopiaSync::with_block_size(sig.block_size);
 
     let file_handle = tokio::fs::File::open(source).await?;
@@ -379,6 +382,8 @@ async fn run_patch(
     let delta_data = tokio::fs::read(delta).await?;
     let delta: copia::Delta = bincode::deserialize(&delta_data)?;
 
+    // Same for the block size carried by a delta file.
+    validate_block_size(delta.block_size as usize)?;
     let sync = AsyncCopiaSync::with_block_size(delta.block_size as usize);
 
     let basis_file = tokio::fs::File::open(basis).await?;
